@@ -203,6 +203,15 @@ func checkLayout(lc *layoutCase, e *expected, rep *core.Report, witness map[stri
 			}
 		}
 	}
+	if indexed {
+		ia, ib := drive.InterleavedRead(bytes.NewReader(lc.data), []mcap.ReadOpt{mcap.UsingIndex(true)}, []mcap.ReadOpt{mcap.InOrder(mcap.ReverseLogTimeOrder)}, true)
+		if ia.Failed() != nil || ib.Failed() != nil {
+			return fail("interleaved-read-error", "two iterators of one Reader consumed alternately: %v / %v", ia.Failed(), ib.Failed())
+		}
+		if !eqStrings(tripleKeys(e.triples), tripleKeys(ia.Triples)) || !eqStrings(sortedKeys(e.triples), sortedKeys(ib.Triples)) {
+			return fail("interleaved-read-differs", "two iterators of one Reader consumed alternately return %d and %d messages, content has %d", len(ia.Triples), len(ib.Triples), len(e.triples))
+		}
+	}
 	// Info
 	var info *mcap.Info
 	var ierr error
